@@ -3,6 +3,8 @@ import BridgeVerif.Model.Score
 import BridgeVerif.Spec.Scoring
 import BridgeVerif.Driver.Auction
 import BridgeVerif.Driver.Play
+import BridgeVerif.Driver.Notation
+import BridgeVerif.Driver.Hands
 /-! The line-protocol driver: one op per line in, one canonical line out. -/
 namespace Bridge.Driver
 
@@ -35,6 +37,10 @@ def step (s : DState) (line : String) : DState × String :=
     else if op.startsWith "A." then
       let (a, o) := auctionOps s.auction t
       ({ s with auction := a }, o)
+    else if op.startsWith "H." then
+      (s, (handsOps t).getD "bad-op")
+    else if op.startsWith "N." then
+      (s, (notationOps t).getD "bad-op")
     else if op.startsWith "P." then
       let (a, o) := playOps s.play t
       ({ s with play := a }, o)
